@@ -211,11 +211,11 @@ def _sel(fl, mi, a0, a1, a2, n, me, de, legacy):
     return _monitor(fl, mode, acts, EXCS[me], EXCS[de], legacy)
 
 
-@cond(quick=dict(timeout=170, parts=dict(FL=[0, 1], MODE=[0, 1, 2])), thorough=dict(timeout=1200, parts=dict(FL=[0, 1], MODE=[0, 1, 2])))
+@cond(quick=dict(A2=4, timeout=170, parts=dict(FL=[0, 1], MODE=[0, 1, 2])), thorough=dict(A2=12, timeout=1500, parts=dict(FL=[0, 1], MODE=[0, 1, 2])))
 def histories(fl: int, mi: int, a0: int, a1: int, a2: int, n: int) -> str:
     """
     pre: fl == P.FL and mi == P.MODE and 0 <= n <= 3 and 0 <= a0 < len(ACTIONS) and 0 <= a1 < len(ACTIONS) and 0 <= a2 < len(ACTIONS)
-    pre: (n >= 3 or a2 == 0) and (n >= 2 or a1 == 0) and (n >= 1 or a0 == 0) and (n < 3 or a2 <= 4)
+    pre: (n >= 3 or a2 == 0) and (n >= 2 or a1 == 0) and (n >= 1 or a0 == 0) and (n < 3 or a2 <= P.A2)
     post: _ == ''
     """
     return verdict(untraced(_sel, fl, mi, a0, a1, a2, n, 0, 0, False))
